@@ -1,13 +1,14 @@
-(* The text FileModel.enc / enc_writes / dec / ver (and ProcModel's view of the process-wide state) were written from.
+(* The text SrcRun5.construct (the set-up of a runcrypt object for the translated whole-file runs) and the Settings part of the
+   file-level model were written from.
 
-   The sequential pieces of a whole-file operation are TRANSLATED (hash, HMAC, header, IV chain, verify, chunk buffer, cipher
-   streams: Gen/Src_xxx.v, refinement theorems SRC_xxx); what composes them -- runcrypt::execute_encrypt / execute_decrypt /
-   execute_verify, prepare_AES, release, over, the constructor, Settings, the buffergroup singleton -- starts threads and
-   prints, and is hand-modelled: enc_writes = header and IVs; pipeline over the plaintext; tag patched in at offset 10;
-   dec = verify, then IVs, pipeline over the body; ver = verify.  tools/cgen.py regenerates Gen/Orch.v (canonical text of
-   those functions from clang's AST) on every run and [orchestration_unchanged] compares it with the text recorded here.
-   An edit to any of them breaks this lemma, hence FileProps.vo and every file-level property file (C01, C02, C05, C06,
-   C08b, C11, C12, C13, C18) and C15: the checks then report the property as no longer shown and look for a failing input. *)
+   Everything a whole-file operation executes is TRANSLATED from /repo on every run: runcrypt::execute_encrypt / execute_decrypt /
+   execute_verify, prepare_AES, release, over (Gen/Src_whole.v), the buffergroup singleton, the hand-over protocol and the worker
+   threads (Gen/Src_conc.v), cipher streams, header, HMAC, hashes; SrcRun5.v runs them together under the thread semantics and the
+   checks compare those runs with the implementation.  Two things are not: runcrypt's constructor (a by-value class parameter, which
+   MiniC does not express; its member initialisers are issued by SrcRun5.construct) and class Settings (range checks that exit).
+   tools/cgen.py regenerates Gen/Orch.v (their canonical text from clang's AST) on every run and [orchestration_unchanged]
+   compares it with the text recorded here.  An edit to them breaks this lemma, hence FileProps.vo and every file-level property
+   file: the checks then report the property as no longer shown and look for a failing input. *)
 From Coq Require Import List String.
 From Wencry.Gen Require Import Orch.
 Import ListNotations.
@@ -21,23 +22,7 @@ Definition expected_orchestration_text : list (string * string) :=
    ("Settings::set_htype/1",
     "(char h) { if (htype < -1 || htype > 2) { fprintf(stderr, ""Invalid hash type: %d\n"", htype); exit(1); } else htype = h; }");
    ("runcrypt::runcrypt/5",
-    "(FILE * fin, FILE * out, u8_t * key, Settings settings, u8_t threads_num) : fin(fin), out(out), key(key), settings(Settings(settings)), threads_num(threads_num), mode(false), header(FileHeader(fin, out, key, settings.get_ctype(), settings.get_htype(), threads_num)), aesfactory(AesFactory(key)), crym(multicry_master(threads_num)) { if (settings.get_no_echo()) resultprint = new NullResPrint *(NullResPrint()) else resultprint = new ResultPrint *(ResultPrint()); hmachandle.loadprinter(resultprint); }");
-   ("runcrypt::prepare_AES/3",
-    "(u8_t ctype, u8_t * iv, bool cmode) { if (!cmode) fseek(fin, (48 + (20 * threads_num)), 0); buffergroup * iobuffer = get_instance(); iobuffer->set_buffergroup(threads_num, fin, out, cmode); Aesmode ** mode = new Aesmode **(threads_num); aesfactory.loadiv(iv); for (int i = 0; i < threads_num; i++) mode[i] = aesfactory.createCryMaster(cmode, ctype); return mode; }");
-   ("runcrypt::release/2",
-    "(u8_t * iv, Aesmode ** mode) { delete iv; for (int i = 0; i < threads_num; i++) delete mode[i]; delete mode; }");
-   ("runcrypt::over/0",
-    "() { if (fin != NULL) fclose(fin); if (out != NULL) fclose(out); }");
-   ("runcrypt::execute_encrypt/2",
-    "(size_t fsize, u8_t * r_buf) { if (fin == NULL) return resultprint->printinv(0); Timer * t_Total_Time = resultprint->createTimer(std::string(""Total_Time"", CXXDefaultArgExpr<>)); ; resultprint->printtask(std::string(""Preparing encrypt"", CXXDefaultArgExpr<>)); u8_t * iv = prepare_IV(r_buf); Aesmode ** mode = prepare_AES(settings.get_ctype(), iv, true); Timer * t_AES_Encryption_Time = resultprint->createTimer(std::string(""AES_Encryption_Time"", CXXDefaultArgExpr<>)); resultprint->printtask(std::string(""Encrypting"", CXXDefaultArgExpr<>)); typename _Bind_helper<__is_socketlike<void (AbsResultPrint::*)(basic_string<char>, unsigned long, unsigned long)>::value, void (AbsResultPrint::*)(basic_string<char>, unsigned long, unsigned long), AbsResultPrint *&, const _Placeholder<1> &, const _Placeholder<2> &, unsigned long>::type boundfunc = bind(&printpercentage, resultprint, _1, _2, fsize == 0 ? 1 : fsize); crym.run_multicry(mode, std::function<void (std::string, size_t)>(boundfunc)); resultprint->resetPercentage(); del_instance(); resultprint->printTimer(t_AES_Encryption_Time); Timer * t_Hashing_Time = resultprint->createTimer(std::string(""Hashing_Time"", CXXDefaultArgExpr<>)); resultprint->printtask(std::string(""Calculating hmac"", CXXDefaultArgExpr<>)); hmachandle.writeFileHmac(settings.get_htype(), out, key, 48, 10, fsize); resultprint->resetPercentage(); resultprint->printTimer(t_Hashing_Time); resultprint->printtask(std::string(""Releasing allocated memory"", CXXDefaultArgExpr<>)); release(iv, mode); resultprint->printenc(); over(); resultprint->printTimer(t_Total_Time); ; return true; }");
-   ("runcrypt::execute_decrypt/1",
-    "(size_t fsize) { if (fin == NULL) return resultprint->printinv(0); Timer * t_Total_Time = resultprint->createTimer(std::string(""Total_Time"", CXXDefaultArgExpr<>)); ; Timer * t_Verify_Time = resultprint->createTimer(std::string(""Verify_Time"", CXXDefaultArgExpr<>)); ; int res = verify(fsize); resultprint->resetPercentage(); resultprint->printTimer(t_Verify_Time); ; if (res == 0) { resultprint->printtask(std::string(""Preparing decrypt"", CXXDefaultArgExpr<>)); u8_t * iv = prepare_IV(); Aesmode ** mode = prepare_AES(header.getctype(), iv, false); Timer * t_AES_Decryption_Time = resultprint->createTimer(std::string(""AES_Decryption_Time"", CXXDefaultArgExpr<>)); resultprint->printtask(std::string(""Decrypting"", CXXDefaultArgExpr<>)); typename _Bind_helper<__is_socketlike<void (AbsResultPrint::*)(basic_string<char>, unsigned long, unsigned long)>::value, void (AbsResultPrint::*)(basic_string<char>, unsigned long, unsigned long), AbsResultPrint *&, const _Placeholder<1> &, const _Placeholder<2> &, unsigned long>::type boundfunc = bind(&printpercentage, resultprint, _1, _2, fsize == 0 ? 1 : fsize); crym.run_multicry(mode, std::function<void (std::string, size_t)>(boundfunc)); resultprint->resetPercentage(); resultprint->printTimer(t_AES_Decryption_Time); resultprint->printtask(std::string(""Releasing allocated memory"", CXXDefaultArgExpr<>)); del_instance(); release(iv, mode); } resultprint->printresd(res); over(); resultprint->printTimer(t_Total_Time); ; return res == 0; }");
-   ("runcrypt::execute_verify/1",
-    "(size_t fsize) { if (fin == NULL) return resultprint->printinv(0); Timer * t_Total_Time = resultprint->createTimer(std::string(""Total_Time"", CXXDefaultArgExpr<>)); ; Timer * t_Verify_Time = resultprint->createTimer(std::string(""Verify_Time"", CXXDefaultArgExpr<>)); ; int res = verify(fsize); resultprint->resetPercentage(); resultprint->printTimer(t_Verify_Time); ; resultprint->printresv(res); over(); resultprint->printTimer(t_Total_Time); ; return res == 0; }");
-   ("buffergroup::get_instance/0",
-    "() { if (instance == NULL) { std::lock_guard<std::mutex> lock = std::lock_guard<std::mutex>(mtx); if (instance == NULL) instance = new buffergroup *(buffergroup()); } return instance; }");
-   ("buffergroup::del_instance/0",
-    "() { if (instance != NULL) { std::lock_guard<std::mutex> lock = std::lock_guard<std::mutex>(mtx); if (instance != NULL) { delete instance; instance = NULL; } } }")].
+    "(FILE * fin, FILE * out, u8_t * key, Settings settings, u8_t threads_num) : fin(fin), out(out), key(key), settings(Settings(settings)), threads_num(threads_num), mode(false), header(FileHeader(fin, out, key, settings.get_ctype(), settings.get_htype(), threads_num)), aesfactory(AesFactory(key)), crym(multicry_master(threads_num)) { if (settings.get_no_echo()) resultprint = new NullResPrint *(NullResPrint()) else resultprint = new ResultPrint *(ResultPrint()); hmachandle.loadprinter(resultprint); }")].
 
 Lemma orchestration_unchanged : orchestration_text = expected_orchestration_text.
 Proof. reflexivity. Qed.
